@@ -1,0 +1,139 @@
+//! Verification hooks (only with `--cfg boa_verif`).
+#![allow(missing_docs)]
+use std::cell::Cell;
+use crate::Context;
+
+thread_local! {
+    pub static NO_CONST_CACHE: Cell<bool> = const { Cell::new(false) };
+    pub static NO_LOOP_HOIST: Cell<bool> = const { Cell::new(false) };
+    pub static NO_FUSED_BRANCH: Cell<bool> = const { Cell::new(false) };
+    pub static NO_INLINE_CACHE: Cell<bool> = const { Cell::new(false) };
+}
+
+#[derive(Debug, Clone, Copy, PartialEq, Eq)]
+pub struct VmDepths { pub frames: usize, pub stack_len: usize, pub pending_exception: bool, pub host_call_depth: usize, pub env_depth: usize, pub binding_stack_len: usize }
+
+#[must_use]
+pub fn vm_depths(context: &Context) -> VmDepths {
+    let vm = &context.vm;
+    VmDepths { frames: vm.frames.len(), stack_len: vm.stack.verif_len(), pending_exception: vm.pending_exception.is_some(), host_call_depth: vm.host_call_depth, env_depth: vm.frame().environments.len(), binding_stack_len: vm.frame().binding_stack.len() }
+}
+
+// ---------------------------------------------------------------------------------------------
+// Code block dumps
+// ---------------------------------------------------------------------------------------------
+use crate::vm::opcode::{Address, IndexOperand, RegisterOperand};
+use thin_vec::ThinVec;
+
+#[derive(Debug, Clone, PartialEq)]
+pub enum Operand {
+    Reg(u32),
+    Index(u32),
+    Addr(u32),
+    Int(i64),
+    Float(f64),
+    Regs(Vec<u32>),
+    Addrs(Vec<u32>),
+    U32s(Vec<u32>),
+}
+pub(crate) trait ToVerifOperand { fn to_verif_operand(&self) -> Operand; }
+impl ToVerifOperand for RegisterOperand { fn to_verif_operand(&self) -> Operand { Operand::Reg(u32::from(*self)) } }
+impl ToVerifOperand for IndexOperand { fn to_verif_operand(&self) -> Operand { Operand::Index(u32::from(*self)) } }
+impl ToVerifOperand for Address { fn to_verif_operand(&self) -> Operand { Operand::Addr(u32::from(*self)) } }
+impl ToVerifOperand for i8 { fn to_verif_operand(&self) -> Operand { Operand::Int(i64::from(*self)) } }
+impl ToVerifOperand for i16 { fn to_verif_operand(&self) -> Operand { Operand::Int(i64::from(*self)) } }
+impl ToVerifOperand for i32 { fn to_verif_operand(&self) -> Operand { Operand::Int(i64::from(*self)) } }
+impl ToVerifOperand for u32 { fn to_verif_operand(&self) -> Operand { Operand::Int(i64::from(*self)) } }
+impl ToVerifOperand for u64 { fn to_verif_operand(&self) -> Operand { Operand::Int(*self as i64) } }
+impl ToVerifOperand for f32 { fn to_verif_operand(&self) -> Operand { Operand::Float(f64::from(*self)) } }
+impl ToVerifOperand for f64 { fn to_verif_operand(&self) -> Operand { Operand::Float(*self) } }
+impl ToVerifOperand for ThinVec<RegisterOperand> { fn to_verif_operand(&self) -> Operand { Operand::Regs(self.iter().map(|r| u32::from(*r)).collect()) } }
+impl ToVerifOperand for ThinVec<Address> { fn to_verif_operand(&self) -> Operand { Operand::Addrs(self.iter().map(|r| u32::from(*r)).collect()) } }
+impl ToVerifOperand for ThinVec<u32> { fn to_verif_operand(&self) -> Operand { Operand::U32s(self.to_vec()) } }
+
+#[derive(Debug, Clone)]
+pub struct InstrDump { pub pc: u32, pub next_pc: u32, pub opcode: &'static str, pub operands: Vec<(&'static str, Operand)> }
+#[derive(Debug, Clone)]
+pub enum ConstDump { String(String), BigInt, Function(u64), Scope { unique_id: u32, index: u32, non_local: u32, total: u32, function: bool } }
+#[derive(Debug, Clone)]
+pub enum LocatorScope { GlobalObject, GlobalDeclarative, Stack(u32) }
+#[derive(Debug, Clone)]
+pub struct BindingDump { pub name: String, pub scope: LocatorScope, pub binding_index: u32, pub unique_scope_id: u32 }
+#[derive(Debug, Clone)]
+pub struct HandlerDump { pub start: u32, pub end: u32, pub environment_count: u32 }
+#[derive(Debug, Clone)]
+pub struct CodeBlockDump {
+    pub id: u64, pub name: String, pub register_count: u32, pub bytecode_len: u32,
+    pub instructions: Vec<InstrDump>, pub decode_error: Option<String>,
+    pub constants: Vec<ConstDump>, pub bindings: Vec<BindingDump>, pub handlers: Vec<HandlerDump>,
+    pub ic_names: Vec<String>, pub flags: u16, pub is_async: bool, pub is_generator: bool,
+    pub has_function_scope: bool, pub has_binding_identifier: bool, pub parameter_length: u32,
+    pub children: Vec<u64>,
+}
+#[must_use]
+pub fn dump_codeblock(cb: &crate::vm::CodeBlock) -> CodeBlockDump {
+    use crate::vm::{Constant, InstructionIterator};
+    use boa_ast::scope::BindingLocatorScope;
+    let mut instructions = Vec::new();
+    let len = cb.bytecode.bytes.len();
+    let mut it = InstructionIterator::new(&cb.bytecode);
+    loop {
+        let pc = it.pc();
+        if pc >= len { break; }
+        let Some((start, _op, ins)) = it.next() else { break };
+        let (opcode, operands) = ins.verif_fields();
+        instructions.push(InstrDump { pc: start as u32, next_pc: it.pc() as u32, opcode, operands });
+    }
+    let mut children = Vec::new();
+    let constants = cb.constants.iter().map(|c| match c {
+        Constant::String(s) => ConstDump::String(s.to_std_string_escaped()),
+        Constant::BigInt(_) => ConstDump::BigInt,
+        Constant::Function(f) => { children.push(f.debug_id); ConstDump::Function(f.debug_id) }
+        Constant::Scope(s) => ConstDump::Scope { unique_id: s.unique_id(), index: s.scope_index(), non_local: s.num_bindings_non_local(), total: s.num_bindings(), function: s.is_function() },
+    }).collect();
+    let bindings = cb.bindings.iter().map(|b| BindingDump {
+        name: b.name().to_std_string_escaped(),
+        scope: match b.scope() { BindingLocatorScope::GlobalObject => LocatorScope::GlobalObject, BindingLocatorScope::GlobalDeclarative => LocatorScope::GlobalDeclarative, BindingLocatorScope::Stack(i) => LocatorScope::Stack(i) },
+        binding_index: b.binding_index(), unique_scope_id: b.unique_scope_id(),
+    }).collect();
+    CodeBlockDump {
+        id: cb.debug_id, name: cb.name().to_std_string_escaped(), register_count: cb.register_count, bytecode_len: len as u32,
+        instructions, decode_error: None, constants, bindings,
+        handlers: cb.handlers.iter().map(|h| HandlerDump { start: h.start.as_u32(), end: h.end.as_u32(), environment_count: h.environment_count }).collect(),
+        ic_names: cb.ic.iter().map(|i| i.name.to_std_string_escaped()).collect(),
+        flags: cb.flags.get().bits(), is_async: cb.is_async(), is_generator: cb.is_generator(),
+        has_function_scope: cb.has_function_scope(), has_binding_identifier: cb.has_binding_identifier(), parameter_length: cb.parameter_length,
+        children,
+    }
+}
+#[derive(Debug, Clone, Copy)]
+pub struct StepInfo { pub codeblock_id: u64, pub pc: u32, pub env_depth: u32, pub env_fp: u32, pub binding_stack_len: u32, pub stack_above_registers: i64 }
+pub type StepObserver = Box<dyn Fn(&StepInfo, &crate::vm::CodeBlock)>;
+thread_local! { static STEP_OBSERVER: std::cell::RefCell<Option<StepObserver>> = const { std::cell::RefCell::new(None) }; static STEP_ON: Cell<bool> = const { Cell::new(false) }; }
+pub fn set_step_observer(f: Option<StepObserver>) { STEP_ON.with(|c| c.set(f.is_some())); STEP_OBSERVER.with(|c| *c.borrow_mut() = f); }
+pub(crate) fn observe_step(context: &Context) {
+    if !STEP_ON.with(Cell::get) { return; }
+    let vm = &context.vm; let f = vm.frame();
+    let info = StepInfo { codeblock_id: f.code_block.debug_id, pc: f.pc, env_depth: f.environments.len() as u32, env_fp: f.env_fp, binding_stack_len: f.binding_stack.len() as u32,
+        stack_above_registers: vm.stack.verif_len() as i64 - i64::from(f.rp) - i64::from(f.code_block.register_count) };
+    STEP_OBSERVER.with(|c| { if let Some(o) = &*c.borrow() { o(&info, &f.code_block); } });
+}
+
+/// Children (function constants) of a code block, for recursive dumping.
+#[must_use]
+pub fn codeblock_children(cb: &crate::vm::CodeBlock) -> Vec<boa_gc::Gc<crate::vm::CodeBlock>> {
+    cb.constants.iter().filter_map(|c| match c { crate::vm::Constant::Function(f) => Some(f.clone()), _ => None }).collect()
+}
+
+/// Storage form of the indexed properties of an object.
+#[must_use]
+pub fn indexed_storage_kind(o: &crate::JsObject) -> &'static str {
+    use crate::object::IndexedProperties as I;
+    match &o.borrow().properties().indexed_properties {
+        I::DenseI32(_) => "DenseI32",
+        I::DenseF64(_) => "DenseF64",
+        I::DenseElement(_) => "DenseElement",
+        I::SparseElement(_) => "SparseElement",
+        I::SparseProperty(_) => "SparseProperty",
+    }
+}
